@@ -61,7 +61,10 @@ func C20(e *Env) {
 	for i := 0; i < nTrees; i++ {
 		ps3 := i%2 == 1
 		name := fmt.Sprintf("t%03d", i)
-		dir, _ := genISOTree(r, root, name, tree.GenOpt{MaxDepth: r.Intn(4), MaxEntries: 1 + r.Intn(10), MaxSize: 70000, NameLen: 14, EmptyFiles: true}, ps3)
+		// half of the plain-mode runs get a tree that looks like a game (valid PS3_GAME/PARAM.SFO): the mode
+		// is what the flag says, not what the tree looks like
+		looksPS3 := ps3 || i%4 == 0
+		dir, _ := genISOTree(r, root, name, tree.GenOpt{MaxDepth: r.Intn(4), MaxEntries: 1 + r.Intn(10), MaxSize: 70000, NameLen: 14, EmptyFiles: true}, looksPS3)
 		outFile := filepath.Join(out, name+".iso")
 		args := []string{"make-iso"}
 		if ps3 {
